@@ -389,6 +389,13 @@ class _Closure:
         self.fnode, self.env = fnode, env
 
 
+class _FuncVal:
+    """A repository function used as a value (table of functions, functools.partial): folded when it is called."""
+
+    def __init__(self, fnode, args=(), kw=None):
+        self.fnode, self.args, self.kw = fnode, tuple(args), dict(kw or {})
+
+
 class _Continue(Exception):
     pass
 
@@ -490,6 +497,8 @@ class Folder:
         f = self._ctx_func()
         if f is not None and self.symbolic and (n.id in f.module.classes or n.id in f.module.funcs or n.id in f.module.imports):
             return Opaque("callable", n.id)
+        if f is not None and not self.symbolic and n.id in f.module.funcs:
+            return _FuncVal(f.module.funcs[n.id].node)
         if f is not None and n.id in f.module.assigns and not self.symbolic:
             # a module-level constant (lookup table, literal): folded once, on its own
             key = (f.module.name, n.id)
@@ -1056,6 +1065,22 @@ class Folder:
                 args = [self.ev(a, env) for a in n.args if not isinstance(a, ast.Starred)]
                 kw = self._kwargs(n, env)
                 return ov[key](args, kw)
+        if not self.symbolic:
+            if isinstance(f, ast.Attribute) and isinstance(f.value, ast.Name) and f.value.id not in env and (f.value.id, f.attr) in (("functools", "partial"), ("itertools", "product")):
+                args = [self.ev(a, env) for a in n.args]
+                kw = self._kwargs(n, env)
+                if f.attr == "partial" and args and isinstance(args[0], _FuncVal):
+                    return _FuncVal(args[0].fnode, args[0].args + tuple(args[1:]), {**args[0].kw, **kw})
+                if f.attr == "product" and all(isinstance(a, (list, tuple, range)) for a in args) and isinstance(kw.get("repeat", 1), int):
+                    import itertools as _it
+                    return list(_it.product(*[list(a) for a in args], repeat=kw.get("repeat", 1)))
+                raise Refuse(f"{f.value.id}.{f.attr} of unmodelled operands")
+            if not isinstance(f, (ast.Name, ast.Attribute)) or (isinstance(f, ast.Name) and isinstance(env.get(f.id), _FuncVal)):
+                fv = self.ev(f, env)
+                if isinstance(fv, _FuncVal):
+                    args = [self.ev(a, env) for a in n.args]
+                    kw = self._kwargs(n, env)
+                    return self.call(fv.fnode, list(fv.args) + args, {**fv.kw, **kw})
         if isinstance(f, ast.Name) and isinstance(env.get(f.id), _Closure):
             cl = env[f.id]
             args = [self.ev(a, env) for a in n.args]
@@ -1389,6 +1414,15 @@ class Folder:
             t = _binop(ast.Add(), t, int(x) if isinstance(x, bool) else x)
         return t
 
+    def c_np_prod(self, a, kw):
+        seq = a[0].flat() if isinstance(a[0], Arr) else a[0]
+        if not isinstance(seq, (list, tuple)) or kw.get("axis") is not None or len(a) > 1:
+            raise Refuse("np.prod form")
+        t = kw.get("start", 1)
+        for x in seq:
+            t = _binop(ast.Mult(), t, x)
+        return t
+
     def c_np_sqrt(self, a, kw):
         return fsqrt(a[0])
 
@@ -1643,6 +1677,15 @@ class Folder:
                 e = e.func
             if isinstance(e, ast.Name):
                 name = e.id
+                cf = self._ctx_func()
+                if cf is not None and name in cf.module.funcs and isinstance(st.exc, ast.Call):
+                    # an exception built by a helper of the module: the helper's returns name the class
+                    rets = {r.value.func.id if isinstance(r.value, ast.Call) and isinstance(r.value.func, ast.Name) else None
+                            for r in ast.walk(cf.module.funcs[name].node) if isinstance(r, ast.Return)}
+                    if len(rets) == 1 and None not in rets:
+                        name = rets.pop()
+                    else:
+                        raise Refuse(f"exception built by {name}: class not found")
             raise Raised(name, st)
         if isinstance(st, ast.Try) and not getattr(st, "finalbody", None):
             # try / except without finally: a raised exception (of the folding language) selects the first handler that names it, a parent
